@@ -267,3 +267,10 @@ def _kinds(rows):
 
 def _dispatch(item):
     return _run_frame(item) if item[1]["kind"] == "frame" else _run_meas(item)
+
+
+def replay_case(prop, case, tmp):
+    keep = ("kind", "variant", "nv", "role", "expect", "n", "bells", "by", "api", "bell", "basis")
+    row = _dispatch((1, {k: case[k] for k in keep if k in case}))
+    res = C.run_tlc_sharded("BellFrame", [row], tmp, shards=1, cfg="BellFrame.cfg")
+    return res.verdicts[0][1] if res.verdicts else None
